@@ -1,8 +1,13 @@
 (** Correspondence + monitor entry points for C09 (used by generated cases).
 
-    A case is one call of resource_division.SetResourcesShare: per resource the
+    A [Flat] case is one call of resource_division.SetResourcesShare: per resource the
     total, the queues as given (fair share 0, as proportion.go builds them) and the
     fair shares the real code produced under several shuffled map insertion orders.
+
+    A [Tree] case is one session: the real proportion plugin opened on a generated
+    queue hierarchy (OnSessionOpen -> setFairShare -> setFairShareForQueues, the real
+    recursion); every queue carries the fair share read back from the plugin (see
+    the last section).
 
     Floats.  Every float64 is a dyadic rational, so inputs and outputs are exact [Q]
     terms.  The model computes in exact arithmetic.  [i_set_resource_share] below is
@@ -29,7 +34,7 @@ Record rcase := {
   rc_obs : list (list (positive * Q));      (* per insertion order: UID -> FairShare *)
 }.
 
-Record case := {
+Record fcase := {
   k_kvalue : Q;
   k_res : list rcase;       (* CPU, Memory, GPU *)
   k_returned : bool;        (* SetResourcesShare returned (watchdog) *)
@@ -271,7 +276,7 @@ Definition rc_agrees (kv : Q) (rc : rcase) : bool :=
   | _, _ => false
   end.
 
-Definition model_agrees (k : case) : bool :=
+Definition flat_agrees (k : fcase) : bool :=
   k_returned k && forallb (rc_agrees (k_kvalue k)) (k_res k).
 
 (** The property itself, evaluated on what the real code returned: the contract
@@ -319,26 +324,144 @@ Definition rc_flag (kv : Q) (rc : rcase) : bool :=
   | 2%nat, o1 :: rest => negb (forallb (agree (rc_eps kv rc) o1) rest)
   | _, _ => false
   end.
-Definition flags (k : case) : list nat :=
-  if existsb (rc_flag (k_kvalue k)) (k_res k) then [1%nat] else [].
-Definition run_flags (cs : list (nat * case)) : list (nat * list nat) :=
-  filter (fun p => negb (Nat.eqb (List.length (snd p)) 0)) (map (fun c => (fst c, flags (snd c))) cs).
+
+Definition flat_monitor (k : fcase) : bool :=
+  k_returned k && forallb (rc_monitor (k_kvalue k)) (k_res k).
+
+(** ---- the hierarchy: one real session per case ----
+
+    [ON cpu mem gpu obs kids]: a queue as the plugin builds it for the three
+    resources (quota, limit, over-quota weight from the QueueInfo; priority,
+    creation time; request = the jobs' requests summed over the queue's sub-tree;
+    historical usage; fair share 0), the fair share [obs] = (CPU, memory, GPU) read
+    back from the plugin after OnSessionOpen, and the queue's children.
+    [t_totals] are the cluster totals (sum of the nodes' allocatable resources),
+    [t_roots] the top queues, [t_opened] says that OnSessionOpen returned without a
+    panic.  One observation per queue: the session is opened once (Go's map
+    iteration order inside the recursion is whatever it was). *)
+Inductive otree : Type := ON (cpu mem gpu : queue) (obs : Q3) (kids : list otree).
+
+Record tcase := {
+  t_kvalue : Q;
+  t_totals : Q3;
+  t_roots : list otree;
+  t_opened : bool;
+}.
+
+Inductive case : Type := Flat (c : fcase) | Tree (t : tcase).
+
+Definition o_queue3 (t : otree) : queue3 := match t with ON c m g _ _ => mkQ3 c m g end.
+Definition o_obs (t : otree) : Q3 := match t with ON _ _ _ o _ => o end.
+Definition o_kids (t : otree) : list otree := match t with ON _ _ _ _ k => k end.
+
+(** the hierarchy as given to the plugin *)
+Fixpoint o_tree (t : otree) : qtree :=
+  match t with ON c m g _ kids => QT (mkQ3 c m g) (map o_tree kids) end.
+
+(** every sibling set of the observed hierarchy with the amount it divided: the
+    top queues with the cluster totals, the children of every queue with the fair
+    share OBSERVED at that queue (an empty set of children is never divided) *)
+Fixpoint sets_below (t : otree) : list (Q3 * list otree) :=
+  match t with
+  | ON _ _ _ obs kids =>
+      (match kids with [] => [] | _ :: _ => [(obs, kids)] end) ++ flat_map sets_below kids
+  end.
+Definition all_sets (tc : tcase) : list (Q3 * list otree) :=
+  (t_totals tc, t_roots tc) :: flat_map sets_below (t_roots tc).
+
+(** one sibling set and one resource as a division case (a single observation) *)
+Definition set_rcase (r : resource) (s : Q3 * list otree) : rcase :=
+  {| rc_total := sel r (fst s);
+     rc_queues := map (fun t => res_of r (o_queue3 t)) (snd s);
+     rc_obs := [map (fun t => (q_uid (res_of r (o_queue3 t)), sel r (o_obs t))) (snd s)] |}.
+
+Definition tree_rcases (tc : tcase) : list rcase :=
+  flat_map (fun s => map (fun r => set_rcase r s) all_resources) (all_sets tc).
+
+(** observed fair shares against a result of the model, exactly, at every queue *)
+Fixpoint same_tree (fuel : nat) (m : list qtree) (o : list otree) : bool :=
+  match fuel with
+  | O => false
+  | S f =>
+      (List.length m =? List.length o)%nat
+      && forallb (fun mo =>
+                    let '(mt, ot) := mo in
+                    forallb (fun r => Qeq_bool (q_fair (res_of r (troot mt))) (sel r (o_obs ot))
+                                      && (q_uid (res_of r (troot mt)) =? q_uid (res_of r (o_queue3 ot)))%positive)
+                            all_resources
+                    && same_tree f (tkids mt) (o_kids ot))
+                 (combine m o)
+  end.
+
+(** Correspondence for a hierarchy.
+    (a) Level by level: for every sibling set and resource the model's division of
+        the amount observed at the parent must match the fair shares observed at
+        the children ([rc_agrees]: exactly when float arithmetic is exact on that
+        division, within 1e-6 away from rounding cliffs, skipped next to one).  A
+        recursion that hands the children a different total, or does not divide them
+        at all, fails here.
+    (b) The whole hierarchy: when every division of the case is exact, the model's
+        [set_fair_share_tree] on the given hierarchy (cluster totals at the top,
+        nothing observed is used) must equal the observation at every queue. *)
+Definition tree_exact (tc : tcase) : bool :=
+  forallb (fun rc => match rc_class (t_kvalue tc) rc with 0%nat => true | _ => false end)
+          (tree_rcases tc).
+
+Definition tree_agrees (tc : tcase) : bool :=
+  t_opened tc
+  && forallb (rc_agrees (t_kvalue tc)) (tree_rcases tc)
+  && (if tree_exact tc then
+        let m := map o_tree (t_roots tc) in
+        match set_fair_share_tree (forest_depth m) (t_totals tc) (t_kvalue tc) m with
+        | Done out => same_tree (S (forest_depth m)) out (t_roots tc)
+        | OutOfFuel => false
+        end
+      else true).
+
+(** The property on the observed hierarchy: every clause of the contract
+    ([contract_ok]: lower bound, upper bound, conservation, and on well-formed
+    inputs no idle surplus, priority bands, weight monotonicity) on EVERY sibling
+    set, with the fair share observed at the parent as the amount divided. *)
+Definition tree_monitor (tc : tcase) : bool :=
+  t_opened tc && forallb (rc_monitor (t_kvalue tc)) (tree_rcases tc).
+
+Definition model_agrees (k : case) : bool :=
+  match k with Flat c => flat_agrees c | Tree t => tree_agrees t end.
 
 Definition monitor_ok (k : case) : bool :=
-  k_returned k && forallb (rc_monitor (k_kvalue k)) (k_res k).
+  match k with Flat c => flat_monitor c | Tree t => tree_monitor t end.
+
+Definition flags (k : case) : list nat :=
+  match k with
+  | Flat c => if existsb (rc_flag (k_kvalue c)) (k_res c) then [1%nat] else []
+  | Tree _ => []
+  end.
+Definition run_flags (cs : list (nat * case)) : list (nat * list nat) :=
+  filter (fun p => negb (Nat.eqb (List.length (snd p)) 0)) (map (fun c => (fst c, flags (snd c))) cs).
 
 Definition run_mismatches (cs : list (nat * case)) : list nat := failing (fun k => negb (model_agrees k)) cs.
 Definition run_monitor (cs : list (nat * case)) : list nat := failing (fun k => negb (monitor_ok k)) cs.
 
-(** distribution of the comparison classes over the resources of the cases
-    (exact, within tolerance, skipped near a cliff) *)
+(** distribution of the comparison classes over the divisions of the cases
+    (exact, within tolerance, skipped near a cliff): the resources of the flat
+    cases, and the (sibling set, resource) pairs of the hierarchies *)
+Definition case_rcases (k : case) : Q * list rcase :=
+  match k with Flat c => (k_kvalue c, k_res c) | Tree t => (t_kvalue t, tree_rcases t) end.
 Definition run_classes (cs : list (nat * case)) : nat * nat * nat :=
   fold_left (fun acc c =>
+     let '(kv, rcs) := case_rcases (snd c) in
      fold_left (fun (a : nat * nat * nat) rc =>
         let '(x, y, z) := a in
-        match rc_class (k_kvalue (snd c)) rc with
+        match rc_class kv rc with
         | 0%nat => (S x, y, z) | 1%nat => (x, S y, z) | _ => (x, y, S z) end)
-       (k_res (snd c)) acc) cs (0%nat, 0%nat, 0%nat).
+       rcs acc) cs (0%nat, 0%nat, 0%nat).
+(** hierarchies: all divisions exact (whole-tree comparison applies) / others *)
+Definition run_tree_classes (cs : list (nat * case)) : nat * nat :=
+  fold_left (fun (a : nat * nat) c =>
+     match snd c with
+     | Flat _ => a
+     | Tree t => if tree_exact t then (S (fst a), snd a) else (fst a, S (snd a))
+     end) cs (0%nat, 0%nat).
 
 (** bin/check reads the failing indices as [<n>%nat]: keep a numeral scope other
     than nat open in the files that import this one (as Run/C19.v does). *)
